@@ -232,63 +232,118 @@ def check_par_wrap(project: Project, rep):
 
 
 def check_alignment(project: Project, rep):
-    """AD-ALIGN: the weights are computed from the rows of the diagram, one per row, and later paired with the rows by a
-    common loop index. If one of the two parallel arrays is re-bound to a selection of itself (`X = X[keep]`) and the other
-    is not re-bound with the same selector, position i of one no longer belongs to position i of the other: points get
-    other points' weights (the image stops being additive / order-free as soon as a point is filtered out)."""
+    """AD-ALIGN: the weights are computed from the rows of the diagram, one per row, and later paired with the rows by
+    position (a common loop index, or `zip`). If one of the two parallel arrays goes through a row selection (`X[keep]`)
+    that the other does not go through, position i of one no longer belongs to position i of the other: points get other
+    points' weights (the image stops being additive / order-free as soon as a point is filtered out).
+    A small dataflow over the helper-inlined view: every name is traced back to `rows` or `weights` plus the list of row
+    selections applied on the way."""
     from .common import expand_locals, fn_view, stmts_in_order
     fi = project.function(TR)
     f = fn_view(project, fi)
-    X = fi.params[0]
     order = stmts_in_order(f)
-    wname = None
+    # the statement computing the weights: a call of the `weight` parameter with two column reads of one array
+    wparam = fi.params[3] if len(fi.params) > 3 else "weight"
+    src = {}  # name -> (root, [selection texts])
     widx = None
     for k, st in enumerate(order):
-        if isinstance(st, ast.Assign) and len(st.targets) == 1 and isinstance(st.targets[0], ast.Name) \
-                and isinstance(st.value, ast.Call) and isinstance(st.value.func, ast.Name) and st.value.func.id in fi.params \
-                and sum(1 for a in st.value.args if isinstance(a, ast.Subscript) and isinstance(a.value, ast.Name)
-                        and a.value.id == X) >= 2:
-            wname, widx = st.targets[0].id, k
+        if not (isinstance(st, ast.Assign) and len(st.targets) == 1 and isinstance(st.targets[0], ast.Name)):
+            continue
+        calls = [c for c in ast.walk(st.value) if isinstance(c, ast.Call) and isinstance(c.func, ast.Name) and c.func.id == wparam]
+        if not calls:
+            continue
+        cols = [a_ for a_ in calls[0].args if isinstance(a_, ast.Subscript) and isinstance(a_.value, ast.Name)]
+        if len(cols) >= 2 and len({a_.value.id for a_ in cols}) == 1:
+            src[cols[0].value.id] = ("rows", [])
+            src[st.targets[0].id] = ("weights", [])
+            widx = k
+            wstmt = st
             break
-    if wname is None:
+    if widx is None:
         rep.unmodelled("AD-ALIGN", fi, fi.node, "the statement computing one weight per diagram row was not found")
         return
-    sel = {X: [], wname: []}
+
+    def row_selection(sl):
+        first = sl.elts[0] if isinstance(sl, ast.Tuple) else sl
+        if isinstance(first, ast.Slice) and first.lower is None and first.upper is None and first.step is None:
+            return None  # all rows
+        if isinstance(first, ast.Constant) or (isinstance(sl, ast.Tuple) and isinstance(first, ast.Name) and False):
+            return None
+        return ast.unparse(expand_locals(f, first))
+
+    def trace(e):
+        """(root, selections) of an expression, or None"""
+        if isinstance(e, ast.Name):
+            return src.get(e.id)
+        if isinstance(e, ast.Subscript):
+            base = trace(e.value)
+            if base is None:
+                return None
+            sel = row_selection(e.slice)
+            first = e.slice.elts[0] if isinstance(e.slice, ast.Tuple) else e.slice
+            if isinstance(first, (ast.Name, ast.Constant)) and not isinstance(first, ast.Slice) and sel is not None \
+                    and not any(isinstance(x, (ast.Compare, ast.Call)) for x in ast.walk(expand_locals(f, first))):
+                return None  # a single row / element read, not a selection of rows
+            return (base[0], base[1] + ([sel] if sel is not None else []))
+        if isinstance(e, ast.Call) and e.args and ast.unparse(e.func) in ("np.asarray", "np.array", "np.copy", "np.ascontiguousarray", "list"):
+            return trace(e.args[0])
+        return None
+
     for st in order[widx + 1:]:
-        if isinstance(st, ast.Assign) and len(st.targets) == 1 and isinstance(st.targets[0], ast.Name) \
-                and st.targets[0].id in sel and isinstance(st.value, ast.Subscript) and isinstance(st.value.value, ast.Name) \
-                and st.value.value.id == st.targets[0].id:
-            sl = st.value.slice
-            first = sl.elts[0] if isinstance(sl, ast.Tuple) else sl
-            if isinstance(first, ast.Slice) and first.lower is None and first.upper is None and first.step is None:
-                continue  # all rows kept (column selection only)
-            sel[st.targets[0].id].append((ast.unparse(expand_locals(f, first)), st))
-    # both arrays used with one loop index afterwards?
-    paired = False
-    for lp in [n for n in ast.walk(f) if isinstance(n, ast.For) and isinstance(n.target, ast.Name)]:
-        iv = lp.target.id
-        used = set()
-        for n in ast.walk(lp):
-            if isinstance(n, ast.Subscript) and isinstance(n.value, ast.Name) and n.value.id in sel:
-                first = n.slice.elts[0] if isinstance(n.slice, ast.Tuple) else n.slice
-                if isinstance(first, ast.Name) and first.id == iv:
-                    used.add(n.value.id)
-        if used == {X, wname}:
-            paired = True
-    sx, sw = [t for t, _ in sel[X]], [t for t, _ in sel[wname]]
-    if sx == sw:
-        rep.discharged("AD-ALIGN", fi, order[widx], f"`{wname}` holds one weight per row of `{X}` and the two stay aligned "
-                                                    f"({'no row selection after that' if not sx else 'both re-bound with ' + sx[0]})")
-    elif paired:
-        node = (sel[X] or sel[wname])[0][1]
-        rep.refuted("AD-ALIGN", fi, node,
-                    f"after the weights were computed, `{X}` is re-bound with row selection(s) {sx or '—'} but `{wname}` with "
-                    f"{sw or '—'}; both are then indexed by one loop index: once a row is filtered out, every later point is "
-                    f"accumulated with another point's weight (the image depends on point order and is no longer the sum of "
-                    f"the images of its parts)", construct=f"{TR}: weights and rows filtered differently")
-    else:
-        rep.unmodelled("AD-ALIGN", fi, (sel[X] or sel[wname])[0][1], "rows and weights are re-bound differently; how they are "
-                                                                     "paired afterwards was not recognised")
+        if not isinstance(st, ast.Assign) or len(st.targets) != 1:
+            continue
+        t, v = st.targets[0], st.value
+        pairs = []
+        if isinstance(t, ast.Name):
+            pairs = [(t, v)]
+        elif isinstance(t, (ast.Tuple, ast.List)):
+            ve = v if isinstance(v, (ast.Tuple, ast.List)) else expand_locals(f, v)
+            if isinstance(ve, (ast.Tuple, ast.List)) and len(ve.elts) == len(t.elts):
+                pairs = [(a_, b_) for a_, b_ in zip(t.elts, ve.elts) if isinstance(a_, ast.Name)]
+        new_src = {}
+        for a_, b_ in pairs:
+            tr = trace(b_)
+            if tr is not None:
+                new_src[a_.id] = (tr[0], list(tr[1]), st)
+        for k_, v_ in new_src.items():
+            src[k_] = (v_[0], v_[1])
+            src.setdefault("$node:" + k_, v_[2])
+    # pairings by position: a common loop index, or zip(rows-derived, weights-derived)
+    verdicts = []
+    for lp in [n for n in ast.walk(f) if isinstance(n, ast.For)]:
+        pair = None
+        if isinstance(lp.iter, ast.Call) and ast.unparse(lp.iter.func) == "zip" and len(lp.iter.args) == 2:
+            a_, b_ = trace(lp.iter.args[0]), trace(lp.iter.args[1])
+            if a_ and b_ and {a_[0], b_[0]} == {"rows", "weights"}:
+                pair = (a_, b_)
+        elif isinstance(lp.target, ast.Name):
+            iv = lp.target.id
+            seen = {}
+            for n in ast.walk(lp):
+                if isinstance(n, ast.Subscript):
+                    first = n.slice.elts[0] if isinstance(n.slice, ast.Tuple) else n.slice
+                    if isinstance(first, ast.Name) and first.id == iv:
+                        tr = trace(n.value)
+                        if tr:
+                            seen[tr[0]] = tr
+            if set(seen) == {"rows", "weights"}:
+                pair = (seen["rows"], seen["weights"])
+        if pair is not None:
+            verdicts.append((lp, pair[0][1] == pair[1][1], pair))
+    if not verdicts:
+        rep.unmodelled("AD-ALIGN", fi, wstmt, "how rows and weights are paired was not recognised")
+        return
+    for lp, ok, (a_, b_) in verdicts:
+        if ok:
+            rep.discharged("AD-ALIGN", fi, lp, "rows and weights are paired by position and went through the same row "
+                                               f"selections ({a_[1] or 'none'})")
+        else:
+            ra, wa = (a_, b_) if a_[0] == "rows" else (b_, a_)
+            rep.refuted("AD-ALIGN", fi, lp,
+                        f"after the weights were computed the rows went through the row selection(s) {ra[1] or '—'} but the "
+                        f"weights through {wa[1] or '—'}; they are then paired by position: once a row is filtered out, every "
+                        f"later point is accumulated with another point's weight (the image depends on point order and is no "
+                        f"longer the sum of the images of its parts)", construct=f"{TR}: weights and rows filtered differently")
 
 
 def check_skew_sites(project: Project, rep):
